@@ -81,6 +81,14 @@ pub struct BgCase {
     /// threads): many registered queues while the generated threads come and go
     #[serde(default)]
     pub pool: u8,
+    /// C07: the reporter itself uses the tracing API inside `report()` (an exporter instrumented
+    /// with the library it exports for): each cycle leaves a command in the collector thread's
+    /// own queue
+    #[serde(default)]
+    pub self_tracing: bool,
+    /// C07: once the case's records have arrived a thread calls `flush()`; it has to return
+    #[serde(default)]
+    pub final_flush: bool,
 }
 
 pub fn strategy() -> BoxedStrategy<BgCase> {
@@ -89,6 +97,7 @@ pub fn strategy() -> BoxedStrategy<BgCase> {
 
 /// C13: every generated thread starts by completing a migrated `in_span` future
 pub fn strategy_for(prop: &str) -> BoxedStrategy<BgCase> {
+    let c07 = prop == "C07";
     let adapters = if prop == "C13" { prop_oneof![1u8..5].boxed() } else { prop_oneof![3 => Just(0u8), 1 => 1u8..4].boxed() };
     let op = prop_oneof![
         3 => Just(BgOp::Root),
@@ -102,7 +111,7 @@ pub fn strategy_for(prop: &str) -> BoxedStrategy<BgCase> {
     let th = (proptest::collection::vec(op, 1..7), any::<bool>(), prop_oneof![2 => Just(0u16), 3 => 0u16..3000, 1 => 3000u16..15000], adapters)
         .prop_map(|(ops, exit_now, start_delay_us, adapter_polls)| BgThread { ops, exit_now, start_delay_us, adapter_polls });
     (prop_oneof![3 => proptest::collection::vec(th.clone(), 1..4), 1 => proptest::collection::vec(th, 4..9)], any::<bool>(), prop_oneof![8 => Just(0u8), 2 => 32u8..48, 1 => 64u8..80, 1 => 128u8..140])
-        .prop_map(|(threads, finish_root_first, pool)| BgCase { threads, finish_root_first, pool })
+        .prop_map(move |(threads, finish_root_first, pool)| BgCase { self_tracing: c07 && threads.len() % 2 == 1, final_flush: c07, threads, finish_root_first, pool })
         .boxed()
 }
 
@@ -111,10 +120,16 @@ static REPORT_CALLS: AtomicU64 = AtomicU64::new(0);
 static CASE: AtomicU64 = AtomicU64::new(0);
 static INTERVAL_US: AtomicU64 = AtomicU64::new(10_000);
 
+static SELF_TRACING: AtomicBool = AtomicBool::new(false);
+
 struct TimedSink;
 impl Reporter for TimedSink {
     fn report(&mut self, spans: Vec<SpanRecord>) {
         REPORT_CALLS.fetch_add(1, Ordering::SeqCst);
+        if SELF_TRACING.load(Ordering::SeqCst) {
+            // the exporter traces its own work
+            drop(Span::root("reporter-own-span", SpanContext::new(TraceId(0x7E57), SpanId(0))));
+        }
         let now = Instant::now();
         let mut s = SINK.lock().unwrap();
         for r in spans {
@@ -143,6 +158,7 @@ pub struct BgOutcome {
 
 pub fn run(c: &BgCase) -> BgOutcome {
     let case = CASE.fetch_add(1, Ordering::SeqCst);
+    SELF_TRACING.store(c.self_tracing, Ordering::SeqCst);
     let tag = format!("{}y{}z", std::process::id(), case);
     let interval = Duration::from_micros(INTERVAL_US.load(Ordering::SeqCst));
     let base = 0x5000_0000_0000u128 + (case as u128) * 1000;
@@ -334,6 +350,29 @@ pub fn run(c: &BgCase) -> BgOutcome {
     }
     let mut out = BgOutcome { expected: expected.len(), exits, ..Default::default() };
     out.cycles_while_waiting = REPORT_CALLS.load(Ordering::SeqCst) - calls_at_start;
+    if c.final_flush {
+        // flush() waits for one collector cycle: with a 10 ms interval and an idle program it is
+        // back within milliseconds; a call still not back after 8 s is blocked on the collector
+        let done = Arc::new(AtomicBool::new(false));
+        let d2 = done.clone();
+        let t0 = Instant::now();
+        let h = std::thread::spawn(move || {
+            fastrace::flush();
+            d2.store(true, Ordering::SeqCst);
+        });
+        while !done.load(Ordering::SeqCst) && t0.elapsed() < Duration::from_secs(8) {
+            std::thread::sleep(Duration::from_millis(1));
+        }
+        if done.load(Ordering::SeqCst) {
+            let _ = h.join();
+        } else {
+            out.violations.push((
+                "blocked:flush-does-not-return".into(),
+                format!("flush() called while the background collector runs with a {} ms interval (reporter uses the tracing API itself: {}) had not returned after 8 s; {} report calls so far", interval.as_millis(), c.self_tracing, REPORT_CALLS.load(Ordering::SeqCst)),
+            ));
+        }
+    }
+    SELF_TRACING.store(false, Ordering::SeqCst);
     // duplicates would come with a later cycle
     std::thread::sleep(interval * 3);
     release.store(true, Ordering::SeqCst);
